@@ -111,7 +111,7 @@ def c15():
     bs = behaviours_from(chk, flat, ["none", "default"], "end", limit)
     bs += [dict(b, id=len(bs) + i + 1) for i, b in enumerate(behaviours_from(chk, deep, ["none", "default", "short"], "every", None))]
     traces = run_storage_harness(chk, bs)
-    results = validate_traces("TraceStorage", "TraceStorage.cfg", traces, chk.wd)
+    results = validate_traces("TraceStorage", "TraceStorage.cfg", traces, chk.wd, chunk=6000)
     chk.handle_validation(results)
     def pred(evs):
         # an open transaction with pending value states at the time of the sweep
@@ -224,7 +224,7 @@ def c16():
                        setup=[], tasks=tasks, schedule=[], mt=True, post=False))
     chk.cov["multi_thread_runs"] = len(bs) - nb2
     traces = run_storage_harness(chk, bs)
-    results = validate_traces("TraceStorage", "TraceStorage.cfg", traces, chk.wd)
+    results = validate_traces("TraceStorage", "TraceStorage.cfg", traces, chk.wd, chunk=6000)
     chk.handle_validation(results)
     def pred(evs):
         return any(e["ev"] == "set" and e["res"] == "err" for e in evs) or any(e["ev"] in ("flush", "sleep") for e in evs)
